@@ -10,12 +10,16 @@
    objects, anonymous identifiers included) are read back as exactly one record per
    written record, in the grouped order, each with its kind, identifier and attribute
    values (C01_container_roundtrip, C01_grouped_is_permutation), and so is a bundle-free
-   document (C01_document_roundtrip_flat).  Open: that the prefix block re-creates a
-   manager in which the names are bound (hypothesis of these theorems; false in the three
-   situations of findings C01-F1..F3) and documents with bundles (C01-F4) — decided per run
-   by the correspondence and the strict-content round trip oracle (partial). *)
+   document (C01_document_roundtrip_flat); the prefix block of a plain manager — registered
+   namespaces under pairwise different prefixes, none a built-in prefix or the word
+   "default", pairwise different URIs, optionally a default namespace — re-creates those
+   bindings (C01_prefix_block), so that for such a bundle-free document no hypothesis about
+   the reader's manager is left (C01_document_roundtrip_plain).  Open: managers that are
+   not plain (the three situations of findings C01-F1..F3 are among them) and documents
+   with bundles (C01-F4) — decided per run by the correspondence and the strict-content
+   round trip oracle (partial). *)
 From Coq Require Import String List ZArith Bool Permutation.
-From Prov Require Import Str Sexp Tables Nsm NsmProofs Values Record World Jtree Json JsonProofs IsoProofs TimeProofs JsonRecProofs JsonContProofs.
+From Prov Require Import Str Sexp Tables Nsm NsmProofs Values Record World Jtree Json JsonProofs IsoProofs TimeProofs JsonRecProofs JsonContProofs JsonPrefixProofs JsonDocProofs.
 Import ListNotations.
 Open Scope string_scope.
 
@@ -132,6 +136,36 @@ Theorem C01_document_roundtrip_flat : forall ft d m,
   = OK (mkD (add_all (with_ns (bundle_init None) m) (map renorm (grouped (brecs (dmain d))))) []).
 Proof. exact json_doc_roundtrip_flat. Qed.
 Print Assumptions C01_document_roundtrip_flat.
+
+(* ---- the prefix block.  plain_regs l: the namespaces l have pairwise different prefixes and URIs, no prefix is
+   built in (prov, xsd, xsi) or the word "default", every URI is acceptable to Namespace().  after l: the
+   built-in table followed by l in order; with_default adds the default namespace. *)
+Theorem C01_prefix_block : forall m l,
+  regd m = map reg_entry l -> plain_regs l ->
+  match dflt m with Some d => uri_ok (ns_uri d) = true | None => True end ->
+  decode_prefixes nsm_init (encode_prefixes m) = OK (with_default (after l) (dflt m)).
+Proof. exact decode_encode_prefixes. Qed.
+Print Assumptions C01_prefix_block.
+
+Theorem C01_prefix_block_binds : forall l d q, plain_regs l -> In (qn_ns q) l -> ns_prefix (qn_ns q) <> "" ->
+  Bound (with_default (after l) d) q.
+Proof. exact plain_names_bound. Qed.
+
+Theorem C01_document_roundtrip_plain : forall ft d l,
+  dbundles d = [] ->
+  regd (bns (dmain d)) = map reg_entry l -> plain_regs l ->
+  match dflt (bns (dmain d)) with Some x => uri_ok (ns_uri x) = true | None => True end ->
+  let m := with_default (after l) (dflt (bns (dmain d))) in
+  Forall (rec_ok None ft m) (brecs (dmain d)) ->
+  decode_doc ft (encode_doc d)
+  = OK (mkD (add_all (with_ns (bundle_init None) m) (map renorm (grouped (brecs (dmain d))))) []).
+Proof. exact json_doc_roundtrip_plain. Qed.
+Print Assumptions C01_document_roundtrip_plain.
+
+Example C01_document_roundtrip_plain_applies :
+  decode_doc [] (encode_doc (mkD y_b []))
+  = OK (mkD (add_all (with_ns (bundle_init None) x_m) (map renorm (grouped (brecs y_b)))) []).
+Proof. exact json_doc_roundtrip_plain_applies. Qed.
 
 (* the premises hold for a container with a repeated identifier, an anonymous relation and a multi-valued
    attribute; the grouped order is computed *)
